@@ -91,6 +91,41 @@ def run(chk: common.Check, tier: str):
                 f"{VOCAB[:6]} (names that are character prefixes of one another), random 2-4 alternative rules "
                 "with planted item-wise prefixes, random structured grammars; a case is non-trivial when the "
                 "grammar has >= 2 alternatives in some rule; distinct by grammar text")
+    # one validator object used for every rule of a grammar, going on after each report: the verdict on a rule must not
+    # depend on what the object has seen before
+    r2 = common.rng("c18-shared")
+    small = VOCAB[:6] + LOOKALIKE[:3]
+    for _ in range(60 if tier == "quick" else 600):
+        rules = []
+        for k in range(r2.randint(3, 6)):
+            alts = [" ".join(r2.choice(small) for _ in range(r2.randint(1, 2))) for _ in range(r2.randint(2, 3))]
+            if r2.random() < 0.5:
+                alts[-1] = alts[0] + (" " + r2.choice(small) if r2.random() < 0.6 else "")
+            rules.append(f"r{k}: " + " | ".join(alts) + "\n")
+        text = "".join(rules)
+        try:
+            g = g2c.read_grammar(text)
+        except SyntaxError:
+            continue
+        def verdicts(shared: bool, passes: int = 1):
+            out = []
+            v = V.SubRuleValidator(g)
+            for _ in range(passes):
+                out = []
+                for name, rule in g.rules.items():
+                    vv = v if shared else V.SubRuleValidator(g)
+                    try:
+                        vv.validate_rule(name, rule)
+                        out.append((name, False))
+                    except V.ValidationError:
+                        out.append((name, True))
+            return out
+        fresh, shared, again = verdicts(False), verdicts(True), verdicts(True, 2)
+        chk.count()
+        if not (fresh == shared == again):
+            chk.violation("a validator object that has already reported an alternative judges later rules differently from a "
+                          f"fresh one: fresh {fresh}, shared {shared}, shared second pass {again}",
+                          {"grammar": text, "how": "SubRuleValidator(g).validate_rule(name, rule) for every rule, catching ValidationError"}, True)
     cases, texts, reals = [], [], []
     for text in grammar_texts(tier):
         try:
